@@ -151,7 +151,7 @@ fn inject(
                 }
                 _ => return None,
             };
-            Some(format!("unknown-{}|leaf{}of{}", kind, i.min(2), n.min(3)))
+            Some(format!("unknown-{}|{}|leaf{}of{}", kind, if i == 0 { "first" } else { "later" }, i.min(2), n.min(3)))
         }
         Mistake::BadOffset { leaf, kind } => {
             let t = target.as_mut()?;
@@ -198,7 +198,7 @@ fn inject(
                 _ => return None,
             };
             let kn = ["end-beyond", "begin-beyond", "inverted", "endaligned-before-start"][(*kind % 4) as usize];
-            Some(format!("bad-offset|{}|{}|leaf{}of{}", rel, kn, i.min(2), n.min(3)))
+            Some(format!("bad-offset|{}|{}|{}|leaf{}of{}", if i == 0 { "first" } else { "later" }, rel, kn, i.min(2), n.min(3)))
         }
         Mistake::BadDatum { pos, kind } => {
             target.as_ref()?;
@@ -217,7 +217,7 @@ fn inject(
                     .with_value(DataValue::Int(1)),
             };
             data.insert(p, bad);
-            Some(format!("bad-datum|{}|after{}valid", if kind % 2 == 0 { "unknown-data-id" } else { "no-key" }, p.min(2)))
+            Some(format!("bad-datum|later|{}|after{}valid", if kind % 2 == 0 { "unknown-data-id" } else { "no-key" }, p.min(2)))
         }
         Mistake::DuplicateId { pick: p } => {
             target.as_ref()?;
@@ -227,7 +227,7 @@ fn inject(
             }
             let a = with_id[pick(*p, with_id.len())];
             *id = m.model.ann(a).id.clone();
-            Some(format!("duplicate-annotation-id|{}data", data.len().min(2)))
+            Some(format!("duplicate-annotation-id|later|{}data", data.len().min(2)))
         }
         Mistake::Nested => {
             let t = target.take()?;
@@ -241,7 +241,7 @@ fn inject(
                     let inner = SelectorBuilder::MultiSelector(vec![clone_sel(&last), last]);
                     v.push(inner);
                     *target = Some(SelectorBuilder::CompositeSelector(v));
-                    Some("nested-complex".into())
+                    Some("nested-complex|later".into())
                 }
                 other => {
                     *target = Some(other);
@@ -251,7 +251,7 @@ fn inject(
         }
         Mistake::NoTarget => {
             *target = None;
-            Some(format!("no-target|{}data", data.len().min(2)))
+            Some(format!("no-target|first|{}data", data.len().min(2)))
         }
     }
 }
@@ -448,7 +448,7 @@ impl Property for C14 {
                 let nleaves = mtarget.leaves().len();
                 out.nontrivial = match mistake {
                     Mistake::UnknownReferent { leaf } => (*leaf as usize % nleaves) > 0,
-                    Mistake::BadOffset { .. } => class.contains("leaf1") || class.contains("leaf2"),
+                    Mistake::BadOffset { .. } => class.contains("|later|"),
                     Mistake::BadDatum { .. } => true,
                     Mistake::DuplicateId { .. } => true,
                     Mistake::Nested => true,
